@@ -272,8 +272,42 @@ def check_pending(ctx):
                   lambda e: is_call(e, "ldb_remove_obsolete_files"), "the input version is released before garbage collection")
 
 
+def check_cache_pins(ctx):
+    """A table (or block) obtained through a cache handle is used only while
+    the handle is held: the shard mutex is the only lock an evicting thread
+    takes, so after the release another thread may free the object."""
+    P = ctx.P
+    from ..rules import never_after
+    f = ctx.fn("ldb_versions_approximate_offset", VS)
+    ti = [e for b, i, e in f.events("call") if is_call(e, "ldb_tables_iterate")]
+    ctx.require(len(ti) == 1, "approximate_offset: ldb_tables_iterate call not found")
+    outp = argkey(ti[0], len(ti[0]["a"]) - 1)
+    ctx.require(outp is not None and outp.startswith("&"), "approximate_offset: table out-parameter not found")
+    tv = outp[1:]
+    isit = lambda t: isinstance(strip_casts(t), dict) and strip_casts(t).get("k") == "call" and strip_casts(t).get("f") == "ldb_tables_iterate"
+    itv = [key(e["lhs"]) for b, i, e in f.events("asg") if isit(e["rhs"])] + \
+          [e["n"] for b, i, e in f.events("decl") if "init" in e and isit(e["init"])]
+    ctx.require(len(itv) == 1, "approximate_offset: pinning iterator variable not found")
+    never_after(ctx, "T10-pinning", "approximate_offset:table-used-while-pinned", f,
+                lambda e: is_call(e, "ldb_iter_destroy") and argkey(e, 0) == itv[0],
+                lambda e: e["e"] == "call" and any(_mentions(a, tv) for a in e.get("a", [])) and not is_call(e, "ldb_tables_iterate"),
+                "the table reached through the cache is used only before the iterator that pins it is destroyed",
+                until=lambda e: is_call(e, "ldb_tables_iterate"))
+    tg = ctx.fn("ldb_tables_get", "src/table_cache.c")
+    never_after(ctx, "T10-pinning", "tables_get:table-used-while-pinned", tg,
+                lambda e: is_call(e, "ldb_lru_release") and argkey(e, 1) == "handle",
+                lambda e: e["e"] == "call" and any(_mentions(a, "table") for a in e.get("a", [])),
+                "the table is searched only while its cache handle is held")
+
+
+def _mentions(tree, var):
+    from ..program import vars_in
+    return var in vars_in(tree)
+
+
 def check_pinning(ctx):
     P = ctx.P
+    check_cache_pins(ctx)
     it = ctx.fn("ldb_internal_iterator", DB)
     reg = one_call(ctx, it, "ldb_iter_register_cleanup")[0][2]
     ctx.check([argkey(reg, k) for k in range(3)] == ["internal_iter", "cleanup_iter_state", "cleanup"], "T10-pinning",
